@@ -140,6 +140,17 @@ pub fn run(ctx: &mut Ctx) {
 
     let total = cal.total_days() as u64;
     let tods: [i64; 3] = [0, 12 * US_HOUR + 34 * US_MIN + 56 * US_SEC + 789_012, US_DAY - 1];
+    // texts that spell a full four-digit year although the picture's year field is short: "when the text supplies
+    // a full year, month and day, the result does not depend on the clock" - decided purely differentially
+    // against the outcome under one reference clock (no model says what the outcome is)
+    let full_year_texts: Vec<(Ty, &'static str, &'static str)> = vec![
+        (Ty::Date, "YY-MM-DD", "0026-03-04"), (Ty::Date, "YY-MM-DD", "1999-03-04"), (Ty::Date, "YY-MM-DD", "0100-03-04"), (Ty::Date, "YY-MM-DD", "0001-03-04"),
+        (Ty::Timestamp, "YY-MM-DD HH24", "0026-03-04 05"), (Ty::OracleDate, "DD/MM/YY", "04/03/0026"), (Ty::Date, "DD MON YY", "04 MAR 0099"),
+    ];
+    set_now(Some(clock(2000, 1, 1, 0)));
+    let full_year_base: Vec<Option<i64>> = full_year_texts.iter().map(|(ty, pic, text)| TV::parse(*ty, text, pic).ok()).collect();
+    set_now(None);
+    let (full_year_texts, full_year_base) = (&full_year_texts, &full_year_base);
     let r = ctx.sweep("every_clock_day", "every possible current local date (all 3,652,059 days, time of day rotating over three values) injected as the clock x partial pictures, year-completion pictures, 12-hour default, now() constructors and Time -> Timestamp / OracleDate conversions", total, 512, |range, acc| {
         let ps: Vec<P> = vec![
             pf(Ty::Date, "DD"), pf(Ty::Date, "MM-DD"), pf(Ty::Date, "YYYY"), pf(Ty::Date, "YYYY-DD"), pf(Ty::Date, "MM"), pf(Ty::Date, "DDD"), pf(Ty::Date, ""),
@@ -215,6 +226,16 @@ pub fn run(ctx: &mut Ctx) {
                 let before = clock_reads();
                 one(acc, idx, "complete-picture-independent-of-clock", p, text, Some(*val), &c);
                 if clock_reads() != before { acc.cls("complete_picture_read_the_clock_without_using_it"); } else { acc.cls("complete_picture_no_clock_read"); }
+            }
+            for (k, (ty, pic, text)) in full_year_texts.iter().enumerate() {
+                acc.t(1);
+                acc.traces += 1;
+                let got = guard(|| TV::parse(*ty, text, pic).ok());
+                acc.cls("full_year_text_under_short_year_field");
+                if got != Ok(full_year_base[k]) {
+                    acc.fail(&format!("C18:{ty:?}:full-year-text:result-depends-on-the-clock"), idx, || (format!("clock = {:04}-{:02}-{:02}; {ty:?}::parse({text:?}, {pic:?})", c.y, c.m, c.d), format!("{:?} (the outcome under the clock 2000-01-01)", full_year_base[k]), format!("{got:?}"),
+                        format!("// inject clock {:04}-{:02}-{:02}; parse {text:?} with {pic:?}; compare with the result under clock 2000-01-01", c.y, c.m, c.d)));
+                }
             }
             // now() and Time -> Timestamp / OracleDate
             let now_us = c.n as i64 * US_DAY + tod;
